@@ -2,13 +2,12 @@
 Counter(list) is modelled as an uninterpreted multiset abstraction of the list value (LC-COUNTER): two Counters compare equal
 iff the abstractions are equal.  `meq` / `ieq` are the relations the STATEMENT speaks about: same multiset of modifications at a
 position (order-insensitive), both absent, or different."""
-from contracts._records import RECORDS, CLASSES, CTORS, PA, accessor_contracts
+from contracts._records import RECORDS, CLASSES, CTORS, PA, accessor_contracts, setter_contracts, pop_contracts, MOD_FIELDS as _FIELDS
 ALIASES = {}
 FUNCS = {}
 AXIOMS = []
 DC = 'peptacular.proforma.proforma_dataclasses:'
 C = accessor_contracts()
-_FIELDS = ('isotope_mods', 'static_mods', 'labile_mods', 'unknown_mods', 'nterm_mods', 'cterm_mods', 'charge_adducts')
 MACROS = {
     'meq': (['x', 'y'], '(x is None and y is None) or (x is not None and y is not None and Counter(some(x)) == Counter(some(y)))'),
     'ieq': (['x', 'y'], '(x is None and y is None) or (x is not None and y is not None and len(some(x)) == len(some(y)) '
@@ -44,16 +43,9 @@ C[PA + '__eq__'] = dict(
                                              'meq(self.get_internal_mods_by_index(j), other.get_internal_mods_by_index(j))))')]},
     raises={})
 
-# the ten property setters strip(inplace=True) goes through; only the `None` case is specified (what strip uses); the other case
-# normalises user input (fix_list_of_mods ...) and is outside this contract
-_SETTER_TY = dict(RECORDS['Annotation'])
-for _f in _FIELDS + ('internal_mods', 'intervals', 'charge'):
-    others = [g for g in _SETTER_TY if g != '_' + _f]
-    C[PA + _f + '.setter'] = dict(
-        params=dict(self='Annotation', value='None'), returns='None', mutates=['self'],
-        ensures=[('field-cleared', 'self_final._%s is None' % _f),
-                 ('nothing-else', ' and '.join('self_final.%s == self.%s' % (g, g) for g in others))],
-        raises={})
+# the ten property setters strip(inplace=True) goes through, and the pop_*() methods built on them: verified here
+C.update(setter_contracts())
+C.update(pop_contracts())
 
 C[PA + 'strip'] = dict(
     params=dict(self='Annotation', inplace='bool'), returns='Optional[Annotation]', mutates=['self'],
